@@ -94,6 +94,8 @@ type Machine struct {
 	M   *model.Store
 	Ops []Op
 	Seq int
+	// ExtraKeys are (series, field) pairs outside the generated domain that FullScan also reads.
+	ExtraKeys [][2]string
 
 	InTSM   map[string]bool
 	InCache map[string]bool
@@ -421,6 +423,11 @@ func (mc *Machine) RandomReads(t *rapid.T, n int) {
 
 // FullScan reads every (series, field) over the whole time range in both directions.
 func (mc *Machine) FullScan() {
+	for _, k := range mc.ExtraKeys {
+		for _, asc := range []bool{true, false} {
+			mc.CheckRead(k[0], k[1], models.MinNanoTime, models.MaxNanoTime, asc, asc)
+		}
+	}
 	for _, s := range gen.SeriesKeys {
 		for _, f := range gen.Fields {
 			for _, asc := range []bool{true, false} {
